@@ -310,16 +310,24 @@ func (ex *Executor) appendOp(st *State, a, b Value, t types.Type, pos token.Pos)
 	if sa != nil && sb != nil {
 		// concatenation: if b has concrete length, use stores
 		if n, ok := sb.Len.IntVal(); ok && n <= 16 {
-			arr := sa.Arr
+			arr := ex.symArr(st, sa)
+			sbArr := ex.symArr(st, sb)
 			for i := int64(0); i < n; i++ {
-				arr = Store(arr, Add(sa.Len, IntLit(i)), Select(sb.Arr, IntLit(i)))
+				arr = Store(arr, Add(sa.Len, IntLit(i)), Select(sbArr, IntLit(i)))
 			}
-			return &SymSliceV{Arr: arr, Len: Add(sa.Len, sb.Len), ElemT: sa.ElemT}
+			return ex.newSymSlice(st, arr, Add(sa.Len, sb.Len), sa.ElemT)
 		}
-		es := elemSort(sa.Arr.S)
-		arr := App("concat!"+es, sa.Arr.S, sa.Arr, sa.Len, sb.Arr)
-		ex.ConcatTerms = append(ex.ConcatTerms, arr)
-		return &SymSliceV{Arr: arr, Len: Add(sa.Len, sb.Len), ElemT: sa.ElemT}
+		saArr, sbArr := ex.symArr(st, sa), ex.symArr(st, sb)
+		es := elemSort(saArr.S)
+		arr := App("concat!"+es, saArr.S, saArr, sa.Len, sbArr)
+		// concat(a, n, b)[i] = i < n ? a[i] : b[i-n]
+		qi := &Term{Op: "qi", S: SInt}
+		body := Eq(&Term{Op: "select", Args: []*Term{arr, qi}, S: es}, Ite(Lt(qi, sa.Len), &Term{Op: "select", Args: []*Term{saArr, qi}, S: es}, &Term{Op: "select", Args: []*Term{sbArr, Sub(qi, sa.Len)}, S: es}))
+		q := &Term{Op: "forall", S: SBool}
+		q.str = "(forall ((qi Int)) " + body.String() + ")"
+		q.Args = []*Term{body}
+		st.Fact(q)
+		return ex.newSymSlice(st, arr, Add(sa.Len, sb.Len), sa.ElemT)
 	}
 	if at, ok := a.(*Term); ok && at.S == SInt {
 		// append to an opaque slice of composites (e.g. handler lists)
@@ -654,7 +662,7 @@ func (ex *Executor) mergeValues(st *State, c *Term, a, b Value) (Value, bool) {
 			return n, true
 		}
 	case *SymSliceV:
-		if y, ok := b.(*SymSliceV); ok && x.Arr.S == y.Arr.S {
+		if y, ok := b.(*SymSliceV); ok && x.Cell == 0 && y.Cell == 0 && x.Arr.S == y.Arr.S {
 			n := &SymSliceV{Arr: Ite(c, x.Arr, y.Arr), Len: Ite(c, x.Len, y.Len), ElemT: x.ElemT}
 			if x.Ref != nil && y.Ref != nil {
 				n.Ref = Ite(c, x.Ref, y.Ref)
